@@ -33,6 +33,14 @@ Theorem c15_delete_keeps_others : forall ts ts', remove_swap ts = Some ts' -> Pe
 Proof. intros ts ts' H. destruct (remove_swap_perm ts ts' H) as [H1 _]. exact H1. Qed.
 Print Assumptions c15_delete_keeps_others.
 
+(* no re-stamp, along every history: an update of a node whose API copy already carries the escalator taint can only be
+   the removal of that taint — its value is never rewritten, so no later scale-down restarts a grace period *)
+Theorem c15_no_restamp : forall x name p u,
+  check_update x name p = true -> api_copy x name = Some u -> has_esc u = true ->
+  (length (n_taints p) < length (n_taints u))%nat.
+Proof. exact check_update_no_restamp. Qed.
+Print Assumptions c15_no_restamp.
+
 (* non-vacuity: a scale-down in the sample world appends the stamp to node 207 (oldest) keeping nothing else changed,
    and a node with three taints loses exactly the escalator one on untaint *)
 Example c15_ex_add :
